@@ -88,7 +88,13 @@ class CombineCallsBaseCodemod(SimpleCodemod, NameResolutionMixin):
             else:
                 new_args.append(first_call.args[arg_index])
 
-        return cst.Call(func=first_call.func, args=new_args)
+        return cst.Call(
+            func=first_call.func,
+            args=new_args,
+            # parentheses around the first call may hold a multi-line expression
+            lpar=first_call.lpar,
+            rpar=first_call.rpar,
+        )
 
     def combine_args(self, *calls: cst.Call, arg_index: int) -> cst.Arg:
         elements = []
